@@ -58,6 +58,18 @@ type Violation struct {
 	Decisions string
 }
 
+// digestRec is an observable recorded by rt.Digest; its value under the path's
+// final model is what the native replay of that path must compute.
+type digestRec struct {
+	name string
+	t    *smt.Term
+}
+
+type ReplayDigest struct {
+	Name string `json:"name"`
+	Val  uint64 `json:"val"`
+}
+
 type ReplayInput struct {
 	Name string `json:"name"`
 	Kind string `json:"kind"`
@@ -129,6 +141,7 @@ type Path struct {
 	actor       int
 	foot        *footprint
 	blobs       []gobBlob
+	digests     []digestRec
 	funcs       map[string]bool
 }
 
